@@ -253,6 +253,47 @@ class SxInt:
     def __neg__(s):
         return SxInt(-s.t)
 
+    # shifts by / masks with concrete non-negative integers, on values the path condition bounds to
+    # 0 <= x < 2^L: one bit decomposition per value (x = sum b_j 2^j with fresh Booleans, as in
+    # sx_bin) keeps every shift and mask linear (z3's integer div/mod made these queries `unknown`)
+    def _decomp(s):
+        c = _cur()
+        cache = c.__dict__.setdefault("bitcache", {})
+        k = s.t.get_id()
+        if k not in cache:
+            if c.feasible(s.t < 0):
+                raise NotImplementedError("shift/mask of a possibly negative symbolic int")
+            L = 1
+            while c.feasible(s.t >= 2 ** L):
+                L += 1
+                if L > MAXBITS:
+                    raise PathAbort("shift/mask width bound")
+            bits = [c.newvar(z3.BoolSort(), "sb") for _ in range(L)]
+            c.extra.append(s.t == z3.Sum([z3.If(b, 2 ** j, 0) for j, b in enumerate(bits)] + [z3.IntVal(0)]))
+            cache[k] = (s.t, bits)
+        return cache[k][1]
+
+    def __rshift__(s, k):
+        if not isinstance(k, int) or isinstance(k, bool) or k < 0:
+            return NotImplemented
+        if k == 0:
+            return s
+        bits = s._decomp()
+        return SxInt(z3.Sum([z3.If(b, 2 ** (j - k), 0) for j, b in enumerate(bits) if j >= k] + [z3.IntVal(0)]))
+
+    def __lshift__(s, k):
+        if not isinstance(k, int) or isinstance(k, bool) or k < 0:
+            return NotImplemented
+        return s * (1 << k)
+
+    def __and__(s, m):
+        if not isinstance(m, int) or isinstance(m, bool) or m < 0:
+            return NotImplemented
+        bits = s._decomp()
+        return SxInt(z3.Sum([z3.If(b, 2 ** j, 0) for j, b in enumerate(bits) if (m >> j) & 1] + [z3.IntVal(0)]))
+
+    __rand__ = __and__
+
     def __truediv__(s, o):
         return SxReal(toreal(s) / toreal(o))
 
@@ -300,6 +341,10 @@ class SxInt:
 
     def __int__(s):
         return s
+
+    def __bool__(s):
+        # truthiness of a symbolic integer forks on x != 0 (`x or default`, `if x:`)
+        return _cur().decide(s.t != 0)
 
     def __repr__(s):
         return "SxInt(%s)" % z3.simplify(s.t)
@@ -844,6 +889,16 @@ class Tr(ast.NodeTransformer):
         s.generic_visit(n)
         if isinstance(n.func, ast.Attribute) and n.func.attr == "join" and len(n.args) == 1 and not n.keywords:
             return ast.copy_location(_call("_sx_join", [n.func.value, n.args[0]]), n)
+        # if-conversion of a filtered sum: sum(E for x in it if C) == sum((E if C else 0) for x in it)
+        # (one generator, one filter; keeps a w-bit decoder at one path instead of 2^w)
+        if isinstance(n.func, ast.Name) and n.func.id == "sum" and len(n.args) == 1 and not n.keywords and isinstance(n.args[0], (ast.GeneratorExp, ast.ListComp)):
+            ge = n.args[0]
+            if len(ge.generators) == 1 and len(ge.generators[0].ifs) == 1 and not ge.generators[0].is_async:
+                g0 = ge.generators[0]
+                elt = _call("_sx_ite", [g0.ifs[0], _lam(ge.elt), _lam(ast.Constant(0))])
+                ng = ast.comprehension(target=g0.target, iter=g0.iter, ifs=[], is_async=0)
+                n.args[0] = type(ge)(elt=elt, generators=[ng])
+                return ast.fix_missing_locations(ast.copy_location(n, n))
         return n
 
     def visit_If(s, n):
